@@ -351,6 +351,45 @@ def parse_tables(rd, strict=True):
             raise Missing("resolve_inherit: the important flag of the pushed attribute is no longer the declaration's")
     step(inherit_flow)
 
+    def xmlnode():
+        # impl simplecss::Element for XmlNode: what selector matching (simplecss) sees of an XML element.  The four
+        # navigation / name / attribute methods are anchored textually (modelled in Model/CascadeSel.v); the arms of
+        # pseudo_class_matches are transcribed.
+        m = one(r"impl simplecss::Element for XmlNode<'_, '_> \{(.*?)\n\}", parse, "impl simplecss::Element for XmlNode")
+        blk = m.group(1)
+        ref = {'parent_element': "self.0.parent_element().map(XmlNode)",
+               'prev_sibling_element': "self.0.prev_sibling_element().map(XmlNode)",
+               'has_local_name': "self.0.tag_name().name() == local_name",
+               'attribute_matches': "match self.0.attribute(local_name) { Some(value) => operator.matches(value), None => false, }"}
+        for fn, body in ref.items():
+            got = re.sub(r"\s+", " ", fn_body(blk, fn)).strip()
+            if got != body:
+                raise Missing("XmlNode::%s: body changed: %r" % (fn, got))
+        pc = re.sub(r"\s+", " ", fn_body(blk, 'pseudo_class_matches')).strip()
+        mm = re.fullmatch(r"match class \{ (.*) _ => (true|false), \}", pc)
+        if not mm:
+            raise Missing("XmlNode::pseudo_class_matches: shape changed: %r" % pc)
+        arms = re.findall(r"simplecss::PseudoClass::(\w+)(?:\([^)]*\))? => ([^,]+),", mm.group(1))
+        rest = re.sub(r"simplecss::PseudoClass::(\w+)(?:\([^)]*\))? => ([^,]+),", "", mm.group(1)).strip()
+        if rest:
+            raise Missing("XmlNode::pseudo_class_matches: unparsed arms %r" % rest)
+        t['pseudo_default'] = mm.group(2)
+        t['pseudo_first_child'] = 'false'
+        for name, expr in arms:
+            if name == 'FirstChild' and expr.strip() == "self.prev_sibling_element().is_none()":
+                t['pseudo_first_child'] = 'true'
+            else:
+                raise Missing("XmlNode::pseudo_class_matches: arm %s => %s is outside the modelled subset" % (name, expr.strip()))
+        # the rule loop: every rule whose selector matches, in sheet order, every declaration in order
+        if "for rule in &style_sheet.rules { if rule.selector.matches(&XmlNode(xml_node)) { for declaration in &rule.declarations { write_declaration(declaration); } } }" not in sw:
+            raise Missing("parse_svg_element: the CSS rule loop changed")
+        rc = re.sub(r"\s+", " ", fn_body(parse, 'resolve_css'))
+        i1 = rc.find("if let Some(style_sheet) = style_sheet { sheet.parse_more(style_sheet); }")
+        i2 = rc.find("sheet.parse_more(text);")
+        if not (0 <= i1 < i2):
+            raise Missing("resolve_css: the injected sheet is no longer parsed before the document's style elements")
+    step(xmlnode)
+
     units = strip_comments(rd(UNITS))
     fsz = fn_body(units, 'resolve_font_size')
     t['fs'] = {}
@@ -407,6 +446,9 @@ def render(t, header):
     o.append("Definition marker_shorthand : list AId := [%s].\n" % "; ".join("A_" + a for a in t['marker_shorthand']))
     o.append("(* insert_attribute: the `has_precedence` expression as a function of the existing attribute's flag *)")
     o.append("Definition new_has_precedence (existing_important : bool) : bool := %s.\n" % t['has_precedence'])
+    o.append("(* svgtree/parse.rs: impl simplecss::Element for XmlNode, pseudo_class_matches: is there the arm `FirstChild => no previous sibling element`, and the value of the `_` arm *)")
+    o.append("Definition xmlnode_pseudo_first_child : bool := %s.\nDefinition xmlnode_pseudo_default : bool := %s.\n" % (
+        t.get('pseudo_first_child', 'true'), t.get('pseudo_default', 'false')))
     o.append("(* svgtree/parse.rs: resolve_inherit fallback table *)")
     o.append("Definition inherit_default (x : AId) : option string :=\n  match x with\n%s\n  | _ => None\n  end.\n" % "\n".join(
         '  | A_%s => Some "%s"' % (a, v) for a, v in t['inherit_default']))
